@@ -7,6 +7,7 @@ import (
 	"net/url"
 	"os"
 	"strconv"
+	"strings"
 	"sync"
 	"sync/atomic"
 	"testing"
@@ -267,12 +268,35 @@ func run(t *testing.T, lane string) {
 		if err != nil {
 			t.Fatalf("generator: %v", err)
 		}
+		// types spread over three packages: two files, each in a package of its own,
+		// whose message refers to the messages of the first file
+		var crossRoots []protoreflect.MessageDescriptor
+		if rapid.Bool().Draw(t, "crosspackages") {
+			ca := pgen.CrossFile(t, res.File, strings.TrimSuffix(pkg, ".v1")+"a.v1")
+			cb := pgen.CrossFile(t, res.File, strings.TrimSuffix(pkg, ".v1")+"b.v1")
+			s2, err := codecx.NewSchema(res.File, ca, cb)
+			if err != nil {
+				t.Fatalf("generator: cross files do not link: %v", err)
+			}
+			s = s2
+			for _, md := range s.Msgs {
+				if md.Name() == "Cross" {
+					crossRoots = append(crossRoots, md)
+				}
+			}
+		}
 		nm := rapid.IntRange(1, 4).Draw(t, "nmsgs")
+		if len(crossRoots) == 2 && nm < 2 {
+			nm = 2
+		}
 		c := conCase{Shared: lane, Repeat: 1}
 		var first protoreflect.Message
 		refused := false
 		for i := 0; i < nm; i++ {
 			md := rapid.SampledFrom(s.Msgs).Draw(t, "root")
+			if i < len(crossRoots) {
+				md = crossRoots[i] // messages 0 and 1: one from each of the two packages
+			}
 			// a quarter of the messages hold values the encoder refuses (NaN, dates
 			// out of range): an operation that fails next to ones that succeed
 			extended := rapid.IntRange(0, 3).Draw(t, "extended") == 0
@@ -297,6 +321,9 @@ func run(t *testing.T, lane string) {
 				o := op{Kind: rapid.SampledFrom([]string{"enc", "enc", "dec", "dec", "query"}).Draw(t, "kind"), Msg: rapid.IntRange(0, nm-1).Draw(t, "msg")}
 				if k == 0 && sameFirst {
 					o.Msg = 0
+				}
+				if k == 0 && len(crossRoots) == 2 {
+					o.Msg = ti % 2 // first uses of the two packages' types overlap
 				}
 				th = append(th, o)
 			}
@@ -334,6 +361,9 @@ func run(t *testing.T, lane string) {
 		}
 		if refused {
 			cls = append(cls, "message-outside-encoder-domain")
+		}
+		if len(crossRoots) == 2 {
+			cls = append(cls, "types-in-three-packages")
 		}
 		r.Eval(nt2, vf.Hash(c.Roots, c.Msgs, c.Threads), cls...)
 		if nt2 && r.WantSample() {
